@@ -9,12 +9,13 @@ import (
 // A Term is a provenance tag: it says where a value comes from, never what
 // the value is. Terms are compared by their canonical key.
 type Term struct {
-	Op   string  // const param cap global alloc faddr iaddr load call ext bin un conv lookup slice lit loopphi len append iface field index mkmap mkslice closure invoke opaque
-	Name string  // const: printed value; param/global/alloc: name; faddr/field: field name; call/invoke: callee; bin/un: operator
-	Args []*Term // operands
-	Idx  int     // ext: result index; load: epoch
-	Type types.Type
-	key  string
+	Op    string  // const param cap global alloc faddr iaddr load call ext bin un conv lookup slice lit loopphi len append iface field index mkmap mkslice closure invoke opaque
+	Name  string  // const: printed value; param/global/alloc: name; faddr/field: field name; call/invoke: callee; bin/un: operator
+	Args  []*Term // operands
+	Idx   int     // ext: result index; load: epoch
+	Type  types.Type
+	CType types.Type // iface: the concrete type that was boxed
+	key   string
 }
 
 func (t *Term) Key() string {
